@@ -9,7 +9,7 @@ the connection breaks, both reactions of the wrapped handler to a failed `Write`
 segments and every change of the pool in between.
 -/
 namespace Fabio.Props.C17Fault
-open Fabio.Model.C17 Fabio.Lemmas.C17 Fabio.Props.C17
+open Fabio.Model.C17 Fabio.Lemmas.C17 Fabio.Props.C17 Fabio.Props.C17Proxy
 
 variable {Z : Type}
 
@@ -188,4 +188,47 @@ theorem close_idempotent (C : Cfg Z) (x : GWC Z) (n : Nat) :
     | false => cases dec <;> rfl
 
 example : (GWC.closeN toyCfg 3 ⟨GW.run toyCfg { dec := .undecided, hdr := [], down := {}, pool := [] } scriptF1, false⟩).s.pool.length = 1 := by decide
+/-- **the_statement_through_the_proxy.** The property's sentences in one statement, for `HTTPProxy.ServeHTTP` with an
+expression configured, every upstream response as the transport delivers it (any relayed 1xx responses, header lines,
+chunking, flushing), every request, every pool content; `live` is the header map at the reverse proxy's
+`WriteHeader`: (1) a response is compressed ONLY IF the client accepts gzip, its content type matches the configured
+expression and it is not already encoded; (2) THEN it is labelled `Content-Encoding: gzip`, carries no
+Content-Length, and decompresses to exactly the bytes the upstream produced; (3) IN EVERY OTHER CASE body and headers
+are those of the reverse proxy on the bare writer (plus the `Vary` line); (4) the status code is the upstream's IN ALL
+CASES. -/
+theorem the_statement_through_the_proxy (C : Cfg Z) (hrt : C.comp.RoundTrip) (head dfl : Bool) (req h0 : Hdr)
+    (pool : List Z) (u : UpResp) (hinfo : ∀ i ∈ u.info, informational i.1 = true) (hfin : informational u.code = false) :
+    let r := proxyServe C true head dfl req h0 pool u
+    let before := (hadd h0 hVary hAcceptEncoding).map (·.1)
+    let live := liveAtStatus before u (hadd h0 hVary hAcceptEncoding)
+    (r.compressed = true →
+      acceptsGzip req = true ∧ C.typeOk (hget live hContentType) = true ∧ hget live hContentEncoding = "") ∧
+    (r.compressed = true →
+      hget r.obs.hdr hContentEncoding = encGzip ∧ hhasRaw r.obs.hdr hContentLength = false ∧
+      C.comp.decode r.obs.body = some u.chunks.flatten) ∧
+    (r.compressed = false → r.obs = serveBare C (flusherOffered head dfl req) h0 (relay before u)) ∧
+    r.obs.status = u.code := by
+  intro r before live
+  have hiff := proxy_compress_iff C head dfl req h0 pool u hinfo hfin
+  refine ⟨fun hc => ?_, fun hc => ?_, fun hc => ?_, ?_⟩
+  · obtain ⟨h1, _, _, h4, h5⟩ := hiff.mp hc
+    exact ⟨h1, h5, h4⟩
+  · obtain ⟨_, h2, h3, _, h5⟩ := proxy_when_compressed C hrt head dfl req h0 pool u hinfo hfin hc
+    exact ⟨h2, h3, h5⟩
+  · have hc' : (serve C head dfl req h0 pool (relay before u)).compressed = false := by
+      simpa [r, proxyServe] using hc
+    have := otherwise_identical C head dfl req h0 pool _ hc'
+    simpa [r, proxyServe] using this
+  · have hs := status_preserved C head dfl req h0 pool (relay before u)
+    have hb : (serveBare C (flusherOffered head dfl req) h0 (relay before u)).status = u.code := by
+      unfold serveBare
+      simp only
+      rw [bare_obs, relay_decision C _ before u _ hinfo hfin]
+    have : r.obs.status = (serve C head dfl req h0 pool (relay before u)).obs.status := by
+      simp [r, proxyServe, before]
+    rw [this, hs, hb]
+
+example : (proxyServe toyCfg true false true reqGzip [] [] upHtml).obs.status = 200 :=
+  (the_statement_through_the_proxy toyCfg toy_roundtrip false true reqGzip [] [] upHtml (by decide) (by decide)).2.2.2
+
 end Fabio.Props.C17Fault
